@@ -22,11 +22,13 @@ type c07byteShape struct {
 	expect string // shape the classifier must find in what the reader delivers
 	table  []byte
 	gdef   []byte
+	detail string     // variant, for the coverage classes
+	hot    []glyph.ID // glyphs for the input sequences (default: the usual six)
 }
 
 var c07byteShapeNames = []string{"bytes:multiple-empty-sequence", "bytes:alternate-empty-set", "bytes:context2-short-rule-sets",
 	"bytes:filtering-set-oob", "bytes:context3-bad-indices", "bytes:chain3-deep-and-recursive", "bytes:context3-many-actions",
-	"bytes:subtable-format-alias"}
+	"bytes:subtable-format-alias", "bytes:coverage-inconsistent"}
 
 func c07buildBytes(r *rand.Rand, which int) *c07byteShape {
 	x, y, a, m := int(hX), int(hY), int(hA), int(hM)
@@ -90,6 +92,91 @@ func c07buildBytes(r *rand.Rand, which int) *c07byteShape {
 			e7 := append([]byte{0, 7, 0, 7, 0, 0, 0, 8}, append([]byte{0, 1, 0, 1, 0, 0, 0, 8}, ob.Single2([]int{x, y}, []int{y, x})...)...)
 			sh.table = ob.Table(ob.Lookup(6560, 0, -1, e7))
 		}
+	case "bytes:coverage-inconsistent":
+		// A subtable with n per-coverage-index records whose coverage table
+		// is not the bijection glyphs -> 0..n-1 the specification asks for:
+		// ranges sharing a glyph, overlapping ranges, gaps and repeats in the
+		// start coverage indices, more glyphs than records, unsorted or
+		// duplicated glyph lists.  A reader may refuse it; whatever it
+		// delivers must be safe to apply to the glyphs at the tail.
+		sh.expect = ""
+		n := 2 + r.IntN(5)
+		g0 := x
+		seq := func(n int) []int { // placeholder coverage g0..g0+n-1
+			out := make([]int, n)
+			for i := range out {
+				out[i] = g0 + i
+			}
+			return out
+		}
+		var sub []byte
+		lt := 1
+		switch r.IntN(5) {
+		case 0:
+			sub = ob.Single2(seq(n), seq(n))
+		case 1:
+			lt = 2
+			seqs := make([][]int, n)
+			for i := range seqs {
+				seqs[i] = []int{y, x}[:1+i%2]
+			}
+			sub = ob.Multiple(seq(n), seqs)
+		case 2:
+			sets := make([][]int, n)
+			for i := range sets {
+				sets[i] = []int{x, y}
+			}
+			sub, lt = ob.Alternate(seq(n), sets), 3
+		case 3:
+			lt = 4
+			sets := make([][]ob.Lig, n)
+			for i := range sets {
+				sets[i] = []ob.Lig{{Rest: []int{x}, Out: y}, {Rest: nil, Out: x}}
+			}
+			sub = ob.Ligature(seq(n), sets)
+		default:
+			lt = 5
+			sets := make([][]ob.ClassRule, 2)
+			sets[1] = []ob.ClassRule{{Actions: []ob.SeqLookup{{SequenceIndex: 0, LookupListIndex: 1}}}}
+			sub = ob.Context2(seq(n), ob.ClassDef(x, 1, 1, 1, 1, 1, 1, 1, 1), sets)
+		}
+		var cov []byte
+		a := 1 + r.IntN(n-1) // glyphs in the first range
+		variant := r.IntN(8)
+		sh.detail = fmt.Sprintf("gsub%d:%s", lt, []string{"ranges-share-glyph", "ranges-overlap", "index-gap", "index-repeats", "more-glyphs-than-records",
+			"all-glyphs", "duplicate-glyph", "descending"}[variant])
+		switch variant {
+		case 0: // the second range starts with the glyph the first one ends with
+			cov = ob.CoverageRanges([3]int{g0, g0 + a - 1, 0}, [3]int{g0 + a - 1, g0 + n - 1, a})
+		case 1: // overlapping ranges
+			cov = ob.CoverageRanges([3]int{g0, g0 + n - 1, 0}, [3]int{g0 + 1, g0 + n, n})
+		case 2: // gap in the start coverage indices
+			cov = ob.CoverageRanges([3]int{g0, g0 + a - 1, 0}, [3]int{g0 + a, g0 + n - 1, a + 1 + r.IntN(3)})
+		case 3: // start coverage index repeats
+			cov = ob.CoverageRanges([3]int{g0, g0 + a - 1, 0}, [3]int{g0 + a, g0 + n - 1, 0})
+		case 4: // more glyphs than records
+			cov = ob.Coverage(seq(n + 1 + r.IntN(20))...)
+		case 5: // one range over (almost) all glyphs
+			cov = ob.CoverageRanges([3]int{r.IntN(3), 0xFFFF - r.IntN(2), 0})
+		case 6: // duplicated glyphs in a list
+			l := seq(n)
+			l = append(l[:a], l[a-1:]...)
+			cov = ob.Coverage(l...)
+		default: // descending list, or a range which ends before it starts
+			if r.IntN(2) == 0 {
+				l := seq(n)
+				for i, j := 0, len(l)-1; i < j; i, j = i+1, j-1 {
+					l[i], l[j] = l[j], l[i]
+				}
+				cov = ob.Coverage(l...)
+			} else {
+				cov = ob.CoverageRanges([3]int{g0, g0 + a - 1, 0}, [3]int{g0 + n - 1, g0 + a, a})
+			}
+		}
+		sh.table = ob.Table(ob.Lookup(lt, 0, -1, ob.ReplaceCoverage(sub, cov)), single)
+		for i := 0; i <= n+1; i++ {
+			sh.hot = append(sh.hot, glyph.ID(g0+i), glyph.ID(g0+n-1), glyph.ID(g0+n))
+		}
 	case "bytes:context3-many-actions":
 		sh.expect = "actions-over-budget:gsub5.3"
 		var acts []ob.SeqLookup
@@ -118,6 +205,9 @@ func c07bytesStratum(c *mon.Ctx) {
 		if err != nil || info == nil || len(info.LookupList) == 0 {
 			k.Class("bytes-not-delivered:" + sh.name)
 			k.Class("bytes-not-delivered-or-applied:" + sh.name)
+			if sh.detail != "" {
+				k.Class("refused:" + sh.detail)
+			}
 			k.Skip(fmt.Sprintf("bytes-not-delivered:%v", err))
 			return
 		}
@@ -148,6 +238,9 @@ func c07bytesStratum(c *mon.Ctx) {
 			t.desc = t.desc[:3000] + "…"
 		}
 		hot := &c07shape{hot: []glyph.ID{hX, hX, hX, hY, hM, hA}}
+		if sh.hot != nil {
+			hot.hot = sh.hot
+		}
 		maxLen := c07maxLen(t.ll, lookups)
 		var seqs [][]glyph.ID
 		for i := 0; i < 4; i++ {
@@ -161,6 +254,9 @@ func c07bytesStratum(c *mon.Ctx) {
 		c07run(k, st, t, lookups, seqs, r.IntN(2) == 0)
 		if st.applied > 0 {
 			k.Class("shape-applied:" + sh.name)
+			if sh.detail != "" {
+				k.Class("applied:" + sh.detail)
+			}
 			k.Class("bytes-not-delivered-or-applied:" + sh.name)
 		}
 		for _, s := range seqs {
@@ -170,7 +266,7 @@ func c07bytesStratum(c *mon.Ctx) {
 		k.Sample(map[string]any{"shape": sh.name, "table-bytes": len(sh.table), "applied": st.applied})
 	})
 	for _, n := range c07byteShapeNames {
-		if n == "bytes:subtable-format-alias" {
+		if n == "bytes:subtable-format-alias" || n == "bytes:coverage-inconsistent" {
 			// a reader that refuses these tables is right; the shape is only
 			// applied if the reader delivers something
 			c.Require("bytes-not-delivered-or-applied:" + n)
